@@ -256,8 +256,10 @@ impl Graph {
         index.index_node(self, id);
         self.index.merge(index);
 
-        self.extract_ref_text(&key)
-            .map(|text| self.keys_to_ref_text.insert(key, text));
+        match self.extract_ref_text(&key) {
+            Some(text) => self.keys_to_ref_text.insert(key, text),
+            None => self.keys_to_ref_text.remove(&key),
+        };
 
         #[cfg(feature = "verif-hooks")]
         verif::emit(self, "from_markdown");
